@@ -231,11 +231,17 @@ def run(facts, rep, tier, ctx):
         ok = sorted({s[1] for s in seq}) == ["directory_map", "files"] and all(s[2] for s in seq)
         rep.ob("R18.3", b.id, "%s consults both maps (files and directories) with the normalised key" % m, ok, str([(s[1], s[2]) for s in seq]), b.span)
     rep.floor("lookup obligations", k, 8)
-    # ---- R18.5 construction
-    new = facts.body("impls::embedded::EmbeddedFS::<T>::new")
+    # ---- R18.5 construction: the function that iterates the embedded files (wherever it lives: `new` itself or a private
+    # helper it calls; obligations are filed under the entry point either way) and the splitting helper, both found by role
+    builders = [b2 for b2 in facts.bodies if b2.id in index_builders and b2.kind != "Closure"]
+    new = builders[0] if builders else None
+    sp_fns = [b2 for b2 in facts.bodies if b2.file.endswith("impls/embedded.rs") and b2.kind == "Fn" and
+              b2.local_ty(0).startswith("std::option::Option<(std::borrow::Cow<")]
+    sp = sp_fns[0] if len(sp_fns) == 1 else None
     if new is None:
-        rep.fail("R18.5", TY, "new() present", "missing")
+        rep.fail("R18.5", TY, "index builder present", "no function of impls/embedded.rs iterates the embedded files")
     else:
+        new_key = D.owner_id(new)
         tr = get_tracer(facts, new)
         root_ins = []
         anc_ins = []
@@ -245,27 +251,27 @@ def run(facts, rep, tier, ctx):
                 recv = norm(tr.operand(t.args[0]))
                 is_root = any(x[0] == "call" and x[1] == "HashMap::entry" and len(x[2]) == 2 and x[2][1] == ("str", "") for x in walk(recv))
                 (root_ins if is_root else anc_ins).append(blk)
-        rep.ob("R18.5", new.id, "ancestors are registered in a loop", len(anc_ins) >= 1, "%d" % len(anc_ins), new.span)
-        rep.ob("R18.5", new.id, "top-level names are registered under the root", len(root_ins) == 1, "%d" % len(root_ins), new.span)
+        rep.ob("R18.5", new_key, "ancestors are registered in a loop", len(anc_ins) >= 1, "%d" % len(anc_ins), new.span)
+        rep.ob("R18.5", new_key, "top-level names are registered under the root", len(root_ins) == 1, "%d" % len(root_ins), new.span)
         for blk in root_ins:
             gs = D.guards(new, blk.idx)
-            done = any(g[0] == "variant" and g[2] == "err" and peel(g[1])[0] == "call" and sname(peel(g[1])[1]) == "rsplit_once_cow" for g in gs)
-            rep.ob("R18.5", new.id, "root entry written only when no separator is left (no early loop exit)", done, "" if done else
+            done = any(g[0] == "variant" and g[2] == "err" and peel(g[1])[0] == "call" and sp is not None and
+                       (inter.body_of_call(peel(g[1])) is sp or sname(peel(g[1])[1]) == sp.name) for g in gs)
+            rep.ob("R18.5", new_key, "root entry written only when no separator is left (no early loop exit)", done, "" if done else
                    "the insertion under the root is reachable while the path still contains a separator: a nested path is "
                    "listed as a child of the root", blk.term.line)
         for blk in anc_ins:
             gs = D.guards(new, blk.idx)
             extra = [g for g in gs if g[0] == "bool" and peel(g[1])[0] == "call" and sname(peel(g[1])[1]) in ("contains", "contains_key", "insert")]
-            rep.ob("R18.5", new.id, "every split registers parent -> child unconditionally", not extra, "" if not extra else
+            rep.ob("R18.5", new_key, "every split registers parent -> child unconditionally", not extra, "" if not extra else
                    "the registration depends on %s" % fmt(extra[0][1])[:50], blk.term.line)
         # loop exits: blocks with a back edge region; any edge leaving the ancestor loop other than via the None edge
         for blk in new.blocks:
             if blk.cleanup:
                 continue
         # sibling arms of the splitting helper
-    sp = facts.body("impls::embedded::rsplit_once_cow")
     if sp is None:
-        rep.note("splitting helper not found by name; sibling rule skipped")
+        rep.fail("R18.5", TY, "splitting helper present", "no single private function of impls/embedded.rs returns Option<(Cow<str>, Cow<str>)>")
     else:
         tr = get_tracer(facts, sp)
         arms = {}
